@@ -309,6 +309,18 @@ func histories(sameClient bool) func() {
 		pA, pB := c1.Probe(1), c2.Probe(1)
 		order := vrt.ChooseFree(2, "who-leaves-first")
 		third := vrt.ChooseFree(2, "third-subscriber-connection")
+		// the object's per-call statistics / tracing wrap the caller's channel
+		mode := vrt.ChooseFree(3, "object-mode")
+		switch mode {
+		case 1:
+			if err := pA.EnableStats(true); err != nil {
+				vrt.Failf("harness/enable-stats", "%v", err)
+			}
+		case 2:
+			if err := pA.EnableTrace(true); err != nil {
+				vrt.Failf("harness/enable-trace", "%v", err)
+			}
+		}
 		vrt.Explore()
 		n := int32(0)
 		emit := func() int32 {
@@ -373,7 +385,7 @@ func histories(sameClient bool) func() {
 						clause = "history-event-duplicated/"
 					}
 				}
-				failf(clause+name, "sequential history (first leaver %s, third subscriber on connection %d): %s received %v, the events emitted while it was subscribed are %v", fn, third+1, name, win.got, expect[name])
+				failf(clause+name, "sequential history (first leaver %s, third subscriber on connection %d, object mode %d [0 plain, 1 statistics, 2 tracing]): %s received %v, the events emitted while it was subscribed are %v", fn, third+1, mode, name, win.got, expect[name])
 			}
 			if !win.closed {
 				failf("channel-not-closed/"+name, "channel of %s still open after cancellation", name)
@@ -396,7 +408,15 @@ func histories(sameClient bool) func() {
 
 // three: three subscribers on three connections; the middle one leaves while
 // the emitter is sending.
-func three() {
+func three() { threeBody(false)() }
+
+// threeBody: abrupt = the middle subscriber's connection is cut instead of
+// being cancelled (the others must not be disturbed).
+func threeBody(abrupt bool) func() {
+	return func() { threeRun(abrupt) }
+}
+
+func threeRun(abrupt bool) {
 	collected = nil
 	w := fx.Start(bus.Yes{})
 	cs := []*fx.Conn{w.MustConnect(), w.MustConnect(), w.MustConnect()}
@@ -410,20 +430,35 @@ func three() {
 	we := vrt.GoWorker("emitter", func() {
 		for n := int32(1); n <= 2; n++ {
 			e := emission{signal: "tick", n: n, start: vrt.Step()}
-			if err := w.Root.Helper.SignalTick(n); err != nil {
+			if err := w.Root.Helper.SignalTick(n); err != nil && !abrupt {
+				// (with a cut connection the helper may report the broken
+				// subscriber to the emitter: that is not judged)
 				failf("emit-error", "emitting tick(%d) failed: %v", n, err)
 			}
 			e.end = vrt.Step()
 			ems = append(ems, e)
 		}
 	})
-	wl := vrt.GoWorker("leaver", func() { ws[1].stop() })
+	wl := vrt.GoWorker("leaver", func() {
+		if abrupt {
+			ws[1].cancelStart = vrt.Step()
+			cs[1].Raw.Close()
+			return
+		}
+		ws[1].stop()
+	})
 	vrt.Quiesce()
 	fx.Settle(we, wl)
 	for i, x := range ws {
+		if abrupt && i == 1 {
+			continue // its connection was cut: nothing is promised to it
+		}
 		x.check(fmt.Sprintf("S%d", i), ems)
 	}
 	for i, c := range cs {
+		if abrupt && i == 1 {
+			continue
+		}
 		checkTap(fmt.Sprintf("conn%d", i), c)
 	}
 	if len(ws[1].got) < 2 {
@@ -439,7 +474,9 @@ func init() {
 		Doc: "sequential: A subscribes, B subscribes, they leave in either order, C subscribes and leaves; an event after every step; two proxies of one client"})
 	reg.Register(&reg.Scenario{Property: "C13", Name: "histories-two-connections", Body: histories(false), Quick: 0, Thorough: 1,
 		Doc: "same sequential histories with A and B on different connections"})
-	reg.Register(&reg.Scenario{Property: "C13", Name: "three-subscribers-middle-leaves", Body: three, Quick: 2, Thorough: 3,
+	reg.Register(&reg.Scenario{Property: "C13", Name: "three-subscribers-middle-connection-cut", Body: threeBody(true), Quick: 1, Thorough: 2,
+		Doc: "three subscribers on three connections; the second one's connection is cut abruptly while the emitter sends tick(1), tick(2): the others get every event once", MustFlag: []string{"required-event"}})
+	reg.Register(&reg.Scenario{Property: "C13", Name: "three-subscribers-middle-leaves", Body: three, Quick: 1, Thorough: 3,
 		Doc: "three subscribers on three connections; the second cancels while the emitter sends tick(1), tick(2)", MustFlag: []string{"left-during-emission", "required-event"}})
 	reg.Register(&reg.Scenario{Property: "C13", Name: "different-connections", Body: body(false, false), Quick: 1, Thorough: 3,
 		Doc: "A: subscribe,cancel,subscribe || B: subscribe || emitter tick(1) tick(2) other(9) tick(3); A and B on different connections", MustFlag: []string{"required-event"}})
